@@ -9,15 +9,51 @@
   by the harness in the main thread and in fresh threads (fresh `RandomState`s) and, in the thorough tier,
   in fresh processes, and must give byte-identical output, identical to the model's.
 
-  Fixed point, PARTIAL (stage 1): the written text is a fixed point of read-then-write (character for
-  character), for every adjacency list.  The full statement goes through the graph (read, build, walk,
-  write) and needs the round-trip core RTC (in progress); until then it is decided by the oracle
-  `rewrite (rewrite x) = rewrite x` on the real code.
+  Fixed point (`graph_fixed_point`, `string_fixed_point`): for EVERY well-formed adjacency list (rings
+  included) on which the traversal succeeds, the written text `t` is accepted by the reader, builds a graph
+  `g'`, and traversing and writing `g'` reproduces `t` character for character — the complete second cycle
+  read → build → walk → write, not only read → write of the events.  Proof (Purr/Lemmas/FixL.lean): the
+  traversals of the original graph and of the re-read graph run in lockstep; the re-read graph is the
+  original renumbered by visit position with every arrival bond first, so every atom is entered through
+  bond index 0 and the walker's and the builder's parity compensations cancel; the ring-number pools agree
+  up to the renumbering of their keys.  The text-level statements (stage 1) are kept.
+  What is not a theorem: `walk` (loop model) = `walkRec` (recursive model), compared on every run.
 -/
 import Purr.Props.C01
 import Purr.Lemmas.PoolL
+import Purr.Lemmas.FixL
 namespace Purr.C14
-open Purr
+open Purr Purr.Spec
+
+/-- THE WRITTEN OUTPUT IS A FIXED POINT OF THE FULL ROUND TRIP: write `g`, read the text back and build `g'`;
+    whatever the traversal of `g'` emits is written as the same text, character for character. -/
+theorem graph_fixed_point (g : Graph) (hw : WellFormed g) (es : List (Event × Nat)) (ord : List Nat)
+    (h : walkRecL g = some (es, ord)) (hne : es ≠ []) :
+    ∃ t g', write? (es.map (·.1)) = some t ∧ (read t).2 = .ok ∧ build? (read t).1 = some (.ok g') ∧
+      ∀ es' ord', walkRecL g' = some (es', ord') → write? (es'.map (·.1)) = some t := by
+  obtain ⟨g1, hb, _, _, _, hfix⟩ := rtc_fix g hw es ord h
+  have hconf : Conformant (es.map (·.1)) := conformant_of_walkRec g es ord h
+  have hne' : es.map (·.1) ≠ [] := by simpa using hne
+  obtain ⟨t, hw', hr⟩ := C09.read_write _ (C01.conformantNE_of_nonempty hconf hne')
+  refine ⟨t, g1.map normAtom, hw', by rw [hr], ?_, ?_⟩
+  · rw [hr]
+    simp only
+    rw [build_norm, hb]
+    rfl
+  · intro es' ord' h'
+    rw [hfix es' ord' h', C09.write_norm]
+    exact hw'
+
+/-- … and for every accepted string that builds: the normal form written for its graph is a fixed point -/
+theorem string_fixed_point (s : Str) (g : Graph) (hb : build? (read s).1 = some (.ok g))
+    (es : List (Event × Nat)) (ord : List Nat) (h : walkRecL g = some (es, ord)) (hne : es ≠ []) :
+    ∃ t g', write? (es.map (·.1)) = some t ∧ (read t).2 = .ok ∧ build? (read t).1 = some (.ok g') ∧
+      ∀ es' ord', walkRecL g' = some (es', ord') → write? (es'.map (·.1)) = some t :=
+  graph_fixed_point g (C10.build_ok_wellformed _ (C08.reader_conformant s) g hb) es ord h hne
+
+/-! non-vacuity: the bicyclic example of C01 meets the hypotheses, and its re-read graph is traversed -/
+example : ∃ es ord, walkRecL C01.exampleRings = some (es, ord) ∧ es ≠ [] :=
+  ⟨(walkRecL C01.exampleRings).get!.1, (walkRecL C01.exampleRings).get!.2, by decide, by decide⟩
 
 /-- writing is a function of the adjacency list (no hidden state): stated for the record -/
 theorem write_deterministic (g g' : Graph) (h : g = g') : write? (walk g).1 = write? (walk g').1 := by rw [h]
